@@ -15,7 +15,7 @@ Definition alive (p : list lh) : list Z := flat_map alive_ids p.
 (* instances that the operation brings into existence *)
 Definition created_by (s : lst) (o : lop) : list Z :=
   match o with
-  | OCreateNode id | OCreateCl id | OCreateGrp id _ => [id]
+  | OCreateNode id | OCreateCl id | OCreateGrp id _ | OCreateZst id => [id]
   | OCreateRef id => [id; id + 500]
   | OChild h => match lget s h with LNode id => [id + 100] | _ => [] end
   | OIntoChild h => match lget s h with LNode id => [id + 200] | _ => [] end
@@ -123,7 +123,7 @@ Theorem lstep_inv s o : LInv s ->
   (uses_borrowed o = false -> leaked s' = leaked s).
 Proof.
   intros I. pose proof I as (IL & IV & IK).
-  destruct o as [id|id|id|id e|h|h|h|h|h|h|h|h|h|id|id]; cbn [lstep created_by uses_borrowed].
+  destruct o as [id|id|id|id e|h|h|h|h|h|h|h|h|h|id|id|id]; cbn [lstep created_by uses_borrowed].
   - exact (spawn_step s (LNode id) 0 I eq_refl).
   - exact (spawn_step s (LCl id) 8 I eq_refl).
   - exact (spawn_step s (LRef id) 9 I eq_refl).
@@ -158,6 +158,7 @@ Proof.
     pose proof (move_step s h (LGrp id true) 12 I N) as M. rewrite G in M. exact (M eq_refl eq_refl).
   - cbn. repeat split; auto.
   - cbn. repeat split; auto.
+  - exact (spawn_step s (LChild id) 15 I eq_refl).
 Qed.
 
 (* ---- whole histories ------------------------------------------------------------------------------------------ *)
